@@ -135,7 +135,7 @@ def distance(prog) -> Dict[str, Tuple[int, int, float]]:
     for q, rl in ref.items():
         f = prog.functions.get(q) or prog.functions.get(inv.get(q, ""))
         if f is None:
-            out[q] = (len(rl), len(rl), 0.0, 0.0)
+            out[q] = (len(rl), len(rl), 0.0, 0.0, len(rl))
             continue
         cl = canonical_lines(f.node)
         if cl == rl:
@@ -143,5 +143,5 @@ def distance(prog) -> Dict[str, Tuple[int, int, float]]:
         sm = difflib.SequenceMatcher(None, rl, cl, autojunk=False)
         match = sum(b.size for b in sm.get_matching_blocks())
         unmatched = (len(rl) - match) + (len(cl) - match)
-        out[q] = (unmatched, len(rl), sm.ratio(), match / max(1, len(rl)))
+        out[q] = (unmatched, len(rl), sm.ratio(), match / max(1, len(rl)), len(rl) - match)
     return out
